@@ -30,10 +30,6 @@ void opLinRead(Ctx& c) {
 template <class G>
 void opLinSortData(Ctx& c) {
   using E = typename G::edge_data_type;
-  if (c.X.numNodes == 0) { // nothing to sort; the empty graph belongs to the "read" operation
-    c.skipped = true;
-    return;
-  }
   G g;
   loadLinear(c, g);
   for (auto n : g)
@@ -50,10 +46,6 @@ void opLinSortData(Ctx& c) {
 // sortEdges with a user comparator over the edge records: by destination handle
 template <class G>
 void opLinSortCustom(Ctx& c) {
-  if (c.X.numNodes == 0) { // nothing to sort; the empty graph belongs to the "read" operation
-    c.skipped = true;
-    return;
-  }
   G g;
   loadLinear(c, g);
   for (auto n : g)
@@ -106,11 +98,11 @@ void regLinFull() {
   regLin<Lin<E>>("lock", L_ALL);
   regLin<Lin<E, true>>("nolock", L_ALL);
   regLin<Lin<E, false, true>>("lock+numa", L_ALL);
-  regLin<Lin<E, false, false, true, true>>("ool+id", L_READ);
+  regLin<Lin<E, false, false, true, true>>("ool+id", L_ALL);
   regLin<Lin<E, true, true>>("nolock+numa", L_READ);
-  regLin<Lin<E, false, true, true, true>>("ool+id+numa", L_READ);
+  regLin<Lin<E, false, true, true, true>>("ool+id+numa", L_READ | L_SORTCUSTOM);
   regLin<Lin<E, false, false, false, true>>("lock+id", L_READ);
-  regLin<Lin<E, true, false, false, false, void>>("nolock+voidnode", L_READ);
+  regLin<Lin<E, true, false, false, false, void>>("nolock+voidnode", L_ALL);
 }
 
 
